@@ -5,17 +5,18 @@ import types
 from common import *  # noqa
 
 PROP = "C01"
-TABLES = ["Whitespace", "C02_Patterns"]
-MODELS = [("c01", "Extract/ExC01.v", "run_C01x")]
+TABLES = ["Whitespace", "C02_Patterns", "C01_CaseMap"]
+MODELS = [("c01", "Extract/ExC01.v", "run_C01all")]
 ALPHA = ["a", "B", " ", "\n", "界"]
-RAND_ALPHA = ["a", "b", "C", " ", " ", "\n", "\n", "\t", "\r", "界", "é"[1], "\U0001F600", "(", "x", "\xdf"]
+RAND_ALPHA = ["a", "b", "C", " ", " ", "\n", "\n", "\t", "\r", "界", "é"[1], "\U0001F600", "(", "x", "\xdf",
+              "\u03a3", "\u0391", "\u0130", "\u01c5", "\u0149", "\u02b0", "\ufb01", "'"]
 
 OPNAMES = {1: "insert_text", 2: "delete_before_cursor", 3: "delete", 4: "newline", 5: "insert_line_above",
            6: "insert_line_below", 7: "join_next_line", 8: "swap_characters_before_cursor",
            9: "transform_current_line", 10: "transform_region", 11: "indent", 12: "unindent",
            13: "set_text", 14: "set_cursor_position", 15: "cursor_left", 16: "cursor_right",
            17: "backward-delete-char", 18: "delete-char", 19: "self-insert", 20: "transpose-chars",
-           21: "join_selected_lines", 22: "case-word"}
+           21: "join_selected_lines", 22: "case-word", 23: "go_to_history"}
 CASE_CMDS = ["uppercase-word", "downcase-word", "capitalize-word"]
 
 
@@ -38,20 +39,63 @@ def apply_F(code, s):
 # --------------------------------------------------------------------------
 # implementation runner
 
-class _Out:
-    def bell(self):
-        pass
+class Ctx:
+    """A real Application whose focused control shows the buffer, so that the named commands are called the way
+    KeyProcessor calls them: Binding.call(KeyPressEvent(...)) with the typed count as the string the processor
+    collects ("-" alone is -1, None is 'no count'), a KeyPress carrying the data, and is_repeat."""
+
+    _app = []   # one Application (loading the default key bindings takes ~15 ms); each buffer gets its own Layout
+
+    def __init__(self, b):
+        self.b = b
+        self.app = None
+        self.step = 0
+        self.last = None
+
+    def attach(self):
+        from prompt_toolkit.application import Application
+        from prompt_toolkit.input import DummyInput
+        from prompt_toolkit.layout import Layout
+        from prompt_toolkit.layout.containers import Window
+        from prompt_toolkit.layout.controls import BufferControl
+        from prompt_toolkit.output import DummyOutput
+        layout = Layout(Window(BufferControl(buffer=self.b)))
+        if not Ctx._app:
+            Ctx._app.append(Application(layout=layout, input=DummyInput(), output=DummyOutput()))
+        self.app = Ctx._app[0]
+        self.app.layout = layout
+
+    def fire(self, name, n=1, data=""):
+        import weakref
+        from prompt_toolkit.application.current import set_app
+        from prompt_toolkit.key_binding.bindings.named_commands import get_by_name
+        from prompt_toolkit.key_binding.key_processor import KeyPress, KeyPressEvent
+        from prompt_toolkit.keys import Keys
+        odd = self.step % 2 == 1
+        if n == -1 and not odd:
+            arg = "-"
+        elif n == 1 and not odd:
+            arg = None
+        else:
+            arg = str(n)
+        if self.app is None or self.app.current_buffer is not self.b:
+            self.attach()
+        with set_app(self.app):
+            assert self.app.current_buffer is self.b
+            ev = KeyPressEvent(weakref.ref(self.app.key_processor), arg=arg,
+                               key_sequence=[KeyPress(Keys.Any if data else Keys.ControlT, data)],
+                               previous_key_sequence=[], is_repeat=(self.last == name and odd))
+            self.last = name
+            get_by_name(name).call(ev)
 
 
-def make_event(buf, arg=1, data=""):
-    app = types.SimpleNamespace(output=_Out(), current_buffer=buf)
-    return types.SimpleNamespace(current_buffer=buf, arg=arg, data=data, app=app, is_repeat=False,
-                                 key_sequence=[])
+def event_arg(n):
+    """KeyPressEvent.arg as the model has it (Model/C01_CaseWord.v event_arg): a count of a million or more is 1."""
+    return 1 if n >= 1000000 else n
 
 
-def impl_step(b, op):
+def impl_step(b, op, ctx):
     from prompt_toolkit.buffer import indent, unindent
-    from prompt_toolkit.key_binding.bindings.named_commands import get_by_name
     k = op[0]
     ret = ""
     if k == 1:
@@ -87,15 +131,15 @@ def impl_step(b, op):
     elif k == 16:
         b.cursor_right(op[1])
     elif k == 17:
-        get_by_name("backward-delete-char").handler(make_event(b, op[1]))
+        ctx.fire("backward-delete-char", op[1])
     elif k == 18:
-        get_by_name("delete-char").handler(make_event(b, op[1]))
+        ctx.fire("delete-char", op[1])
     elif k == 19:
-        get_by_name("self-insert").handler(make_event(b, op[2], unS(op[1])))
+        ctx.fire("self-insert", op[2], unS(op[1]))
     elif k == 20:
-        get_by_name("transpose-chars").handler(make_event(b))
+        ctx.fire("transpose-chars")
     elif k == 22:
-        get_by_name(CASE_CMDS[op[1]]).handler(make_event(b, op[2]))
+        ctx.fire(CASE_CMDS[op[1]], op[2])
     elif k == 21:
         from prompt_toolkit.selection import SelectionState
         b.selection_state = SelectionState(original_cursor_position=op[1])
@@ -103,6 +147,8 @@ def impl_step(b, op):
             b.join_selected_lines(separator=unS(op[2]))
         finally:
             b.selection_state = None
+    elif k == 23:
+        b.go_to_history(op[1])
     else:
         raise ValueError(k)
     return ret
@@ -130,13 +176,15 @@ def impl_case(case):
     from prompt_toolkit.document import Document
     text, cur, ops = case
     b = Buffer(document=Document(unS(text), cur))
+    ctx = Ctx(b)
     out = []
     trace = []   # (text_before, cur_before, op, status, text_after, cur_after, ret, views)
-    for op in ops:
+    for j, op in enumerate(ops):
         t0, c0 = b.text, b.cursor_position
         status, ret = 0, ""
+        ctx.step = j
         try:
-            ret = with_watchdog(lambda: impl_step(b, op), 5)
+            ret = with_watchdog(lambda: impl_step(b, op, ctx), 5)
         except AssertionError:
             status = 1
         except IndexError:
@@ -177,7 +225,7 @@ def oracle_step(t0, c0, op, status, t1, c1, ret, views):
         if c1 != (c0 + len(data) if op[3] else c0):
             return ("insert: cursor", "insert-cursor")
     elif k in (2, 17) and op[1] >= 0:
-        n = op[1]
+        n = op[1] if k == 2 else event_arg(op[1])
         kk = min(n, c0)
         if status != 0:
             return (name + " raised for count >= 0", "raise")
@@ -185,7 +233,7 @@ def oracle_step(t0, c0, op, status, t1, c1, ret, views):
             return ("delete_before_cursor(%d): must remove exactly the min(n, cursor) characters before the cursor and return them" % n,
                     "count>cursor" if n > c0 else "count<=cursor")
     elif k in (3, 18):
-        n = op[1]
+        n = op[1] if k == 3 else event_arg(op[1])
         kk = min(max(0, n), len(t0) - c0)
         if status != 0:
             return (name + " raised", "raise")
@@ -238,20 +286,48 @@ def oracle_step(t0, c0, op, status, t1, c1, ret, views):
     elif k == 20:
         if status != 0:
             return ("transpose-chars raised", "raise")
-        if sorted(t1) != sorted(t0) or len([i for i in range(len(t0)) if t0[i] != t1[i]]) > 2:
-            return ("transpose-chars: more than two characters changed", "transpose")
+        p = c0
+        if p == 0:
+            exp = (t0, 0)
+        elif p == len(t0) or t0[p] == "\n":
+            exp = (t0, p) if p < 2 else (t0[:p - 2] + t0[p - 1] + t0[p - 2] + t0[p:], p)
+        else:
+            exp = (t0[:p - 1] + t0[p] + t0[p - 1] + t0[p + 1:], p + 1)
+        if t1 != exp[0]:
+            return ("transpose-chars: must exchange the two characters around the cursor (at the end of the text or of a "
+                    "line: the two before the cursor) and change nothing else", "transpose")
     elif k == 22:
         if status != 0:
             return ("case command raised", "raise")
-        # each of the `arg` applications replaces a span directly after the cursor by its case image
-        # and moves the cursor behind it: so overall text' = before + F(after[:n]) + after[n:] for some n
-        # (F applied piecewise gives the same characters for upper/lower; for title we check piecewise below)
-        # (the image of a span may be longer than the span: '\xdf'.upper() == 'SS')
-        ns = [n for n in range(len(after) + 1)
-              if t1[:c0] == before and len(t1) >= c0 + len(after) - n and t1[len(t1) - (len(after) - n):] == after[n:]
-              and c1 == len(t1) - (len(after) - n)
-              and t1[c0:c1].lower().replace("ss", "\xdf") == after[:n].lower().replace("ss", "\xdf")]
-        if not ns:
+        # each of the `arg` applications replaces a span directly after the cursor by its image under F
+        # (str.upper / lower / title) and moves the cursor behind it: text' = before + X + after[n:] where X is the
+        # concatenation of the images of at most `arg` consecutive pieces of after[:n]; the image of a piece may be
+        # longer or shorter than the piece ('\xdf'.upper() == 'SS') and depends on the piece only
+        F = lambda x: case_F(op[1], x)  # noqa
+        rounds = max(0, event_arg(op[2]))
+        ok = False
+        if t1[:c0] == before and c0 <= c1 <= len(t1):
+            X = t1[c0:c1]
+            for n in range(len(after) + 1):
+                if t1[c1:] != after[n:]:
+                    continue
+                reach = {(0, 0)}
+                for _ in range(rounds):
+                    if (n, len(X)) in reach:
+                        break
+                    nxt = set(reach)
+                    for (i, xp) in reach:
+                        for j in range(i + 1, n + 1):
+                            img = F(after[i:j])
+                            if X.startswith(img, xp):
+                                nxt.add((j, xp + len(img)))
+                    if nxt == reach:
+                        break
+                    reach = nxt
+                if (n, len(X)) in reach:
+                    ok = True
+                    break
+        if not ok:
             return ("case command: text' is not before + case-mapped span + rest of the text (something else changed)", "case-word")
     elif k == 21 and 0 <= op[1] <= len(t0):
         if status != 0:
@@ -286,7 +362,7 @@ def oracle_step(t0, c0, op, status, t1, c1, ret, views):
             if k == 12 and l1[i] != (l0[i][len(ic):] if l0[i].startswith(ic) else l0[i].lstrip()):
                 return ("unindent: addressed line lost non-blank characters", "indent")
     elif k == 19 and op[2] >= 0:
-        data = unS(op[1]) * op[2]
+        data = unS(op[1]) * event_arg(op[2])
         if status != 0 or t1 != before + data + after or c1 != c0 + len(data):
             return ("self-insert: text' != before + data*arg + after", "insert")
     elif k in (15, 16):
@@ -332,6 +408,18 @@ def single_ops(n_text):
         for a in (-1, 0, 1, 2, 3):
             ops.append([22, kind, a])
     return ops
+
+
+_CT = []
+
+
+def case_table_chars():
+    if not _CT:
+        _CT.extend(chr(c) for c in range(0x110000)
+                   if not 0xD800 <= c < 0xE000 and any(f(chr(c)) != chr(c) for f in (str.upper, str.lower, str.title)))
+        _CT.extend(["\u0345", "\u02b0", "\u00ad", "\u0301", "\u2019", "\u00aa"])
+        assert 2500 < len(_CT) < 4100
+    return _CT
 
 
 def rand_text(rng, maxlen):
@@ -396,6 +484,16 @@ def gen_cases(chk):
                 if stratum >= 1.0 or rng.random() < stratum:
                     cases.append([S(t), cur, [op]])
                     dist["exhaustive_single_op"] += 1
+    # the case commands over every code point whose upper / lower / title image is not itself (the table
+    # Gen/C01_CaseMap.v is regenerated from the same CPython), alone and in a final-sigma context
+    dist["case_table_exhaustive"] = 0
+    cstratum = 1.0 if thorough else 0.06
+    for ch in case_table_chars():
+        for t, arg in ((ch, 1), ("\u0391" + ch + "\u03a3", 3), (ch + "\u03a3" + ch + "'", 3)):
+            for kind in (0, 1, 2):
+                if cstratum >= 1.0 or rng.random() < cstratum:
+                    cases.append([S(t), 0, [[22, kind, arg]]])
+                    dist["case_table_exhaustive"] += 1
     nseq = 20000 if thorough else 1500
     for _ in range(nseq):
         t = rand_text(rng, 40)
@@ -406,24 +504,152 @@ def gen_cases(chk):
     return cases, dist
 
 
+
+# --------------------------------------------------------------------------
+# the stored state: working lines + index + cursor + the caches behind Buffer.document (Model/C01_Views.v)
+
+_LOOP = []
+
+
+def make_wbuffer(lines, idx, cur):
+    """A real Buffer whose working lines are `lines`: the older entries come from a history that is loaded the way
+    BufferControl does it (load_history_if_not_yet_loaded inside a running loop); the entry is reached with
+    go_to_history."""
+    import asyncio
+    from prompt_toolkit.buffer import Buffer
+    from prompt_toolkit.document import Document
+    from prompt_toolkit.history import InMemoryHistory
+    if not _LOOP:
+        _LOOP.append(asyncio.new_event_loop())
+    loop = _LOOP[0]
+
+    async def mk():
+        b = Buffer(history=InMemoryHistory(lines[:-1]), document=Document(lines[-1], 0))
+        b.load_history_if_not_yet_loaded()
+        await b._load_history_task
+        return b
+    b = loop.run_until_complete(mk())
+    assert list(b._working_lines) == lines and b.working_index == len(lines) - 1
+    b.go_to_history(idx)
+    b.cursor_position = cur
+    assert b.working_index == idx and b.cursor_position == cur and len(b._document_cache) == 0
+    return b
+
+
+def cache_ok(b):
+    """every entry of the two caches behind Buffer.document shows the text it is filed under"""
+    from prompt_toolkit.document import _text_to_document_cache
+    dc = b._document_cache
+    if list(dc._keys) != list(dc.keys()) or len(dc) > dc.size + 1:
+        return "document cache: key deque and dict differ, or more than size+1 entries"
+    for (t, c, sel), d in dc.items():
+        if d.text != t or d.cursor_position != c or d.selection is not sel:
+            return "document cache entry %r holds Document(%r, %r)" % ((t, c), d.text, d.cursor_position)
+    for t, dcache in list(_text_to_document_cache.items()):
+        if dcache.lines is not None and list(dcache.lines) != t.split("\n"):
+            return "line cache of %r holds %r" % (t, list(dcache.lines))
+        if dcache.line_indexes is not None:
+            exp, pos = [], 0
+            for l in t.split("\n"):
+                exp.append(pos)
+                pos += len(l) + 1
+            if list(dcache.line_indexes) != exp:
+                return "line-start cache of %r holds %r" % (t, dcache.line_indexes)
+    return None
+
+
+def impl_wcase(case):
+    lines, idx, cur, ops = case
+    lines = [unS(l) for l in lines]
+    b = with_watchdog(lambda: make_wbuffer(lines, idx, cur), 10)
+    ctx = Ctx(b)
+    out, trace = [], []
+    for j, op in enumerate(ops):
+        l0, i0 = list(b._working_lines), b.working_index
+        t0, c0 = b.text, b.cursor_position
+        status, ret = 0, ""
+        ctx.step = j
+        try:
+            ret = with_watchdog(lambda: impl_step(b, op, ctx), 5)
+        except AssertionError:
+            status = 1
+        except IndexError:
+            status = 2
+        except Hang:
+            status = 98
+        except Exception as e:  # noqa
+            status = 99
+        if status != 0:
+            ret = ""
+        d = b.document                      # the observation the model calls w_observe
+        dl = list(d.lines)
+        l1, i1 = list(b._working_lines), b.working_index
+        keys = [[S(k[0]), k[1]] for k in b._document_cache._keys]
+        out.append([status, [S(l) for l in l1], i1, b.cursor_position, S(ret or ""), keys,
+                    [S(d.text), d.cursor_position, [S(l) for l in dl]]])
+        bad = views_ok(b) or cache_ok(b)
+        if not bad and op[0] != 23:
+            if i1 != i0 or len(l1) != len(l0) or any(l1[j2] != l0[j2] for j2 in range(len(l0)) if j2 != i0):
+                bad = "an edit changed a working line other than the current one (or the working index)"
+        if not bad and op[0] == 23:
+            if l1 != l0 or (i1 != (op[1] if 0 <= op[1] < len(l0) else i0)):
+                bad = "go_to_history changed a working line or went to the wrong entry"
+        trace.append((t0, c0, op, status, b.text, b.cursor_position, ret or "", bad))
+    return out, trace
+
+
+def gen_wcases(chk):
+    rng = chk.rng
+    thorough = chk.tier == "thorough"
+    cases = []
+    dist = {"stored_single_op": 0, "stored_random_sequence": 0}
+    texts = [""] + ["".join(t) for n in (1, 2) for t in itertools.product(ALPHA, repeat=n)]
+    stratum = 0.5 if thorough else 0.06
+    for t in texts:
+        ops = single_ops(len(t)) + [[23, i] for i in (-1, 0, 1, 2)]
+        for cur in range(len(t) + 1):
+            for op in ops:
+                if rng.random() < stratum:
+                    other = rng.choice(["", "q", "old\nline"])
+                    lines, idx = ([other, t], 1) if rng.random() < 0.5 else ([t, other], 0)
+                    cases.append([[S(x) for x in lines], idx, cur, [op]])
+                    dist["stored_single_op"] += 1
+    nseq = 6000 if thorough else 500
+    for _ in range(nseq):
+        n = rng.choice([1, 2, 2, 3, 4])
+        lines = [rand_text(rng, 12) for _ in range(n)]
+        idx = rng.randrange(n)
+        cur = rng.randint(0, len(lines[idx]))
+        ops = []
+        for _ in range(rng.randint(1, 40 if thorough else 20)):
+            if rng.random() < 0.12:
+                ops.append([23, rng.randint(-1, n)])
+            else:
+                ops.append(rand_op(rng, len(lines[idx])))
+        cases.append([[S(x) for x in lines], idx, cur, ops])
+        dist["stored_random_sequence"] += 1
+    return cases, dist
+
 # --------------------------------------------------------------------------
 
 def main(tier):
     chk = Check(PROP, tier)
     pr = chk.proofs("Props/C01.v", tables=TABLES)
-    okm, logm = build_model("c01", "Extract/ExC01.v", "run_C01x", tables=TABLES)
+    okm, logm = build_model("c01", "Extract/ExC01.v", "run_C01all", tables=TABLES)
     if not okm:
         chk.violation("tie", "model does not build: " + logm[-400:], {"kind": "model-build"}, {"log": logm[-3000:]}, no_input=True)
         return chk.finish()
 
     cases, dist = gen_cases(chk)
+    wcases, wdist = gen_wcases(chk)
+    dist.update(wdist)
     corpus = load_corpus(PROP)
-    cases = corpus + cases
+    cases = corpus + cases + wcases
     impl_results = []
     oracle_bad = set()
     opcount = {}
     for i, c in enumerate(cases):
-        out, trace = impl_case(c)
+        out, trace = impl_wcase(c) if len(c) == 4 else impl_case(c)
         impl_results.append(out)
         nontrivial = any(tr[3] == 0 and (tr[0] != tr[4] or tr[1] != tr[5]) for tr in trace)
         chk.count_case(c, nontrivial)
@@ -436,30 +662,30 @@ def main(tier):
                 chk.violation("oracle", "%s (text=%r cursor=%d op=%r -> text=%r cursor=%d ret=%r)" % (
                     clause, tr[0], tr[1], tr[2], tr[4], tr[5], tr[6]),
                     {"op": OPNAMES[tr[2][0]], "family": fam},
-                    {"text": tr[0], "cursor": tr[1], "op": tr[2], "observed": {"status": tr[3], "text": tr[4], "cursor": tr[5], "ret": tr[6]},
+                    {**({"case": c} if len(c) == 4 else {}), "text": tr[0], "cursor": tr[1], "op": tr[2], "observed": {"status": tr[3], "text": tr[4], "cursor": tr[5], "ret": tr[6]},
                      "clause": clause, "how": "Buffer(document=Document(text, cursor)); apply op (see harness/c01.py impl_step)"})
                 break
         if i % 997 == 0:
-            chk.sample({"text": unS(c[0]), "cursor": c[1], "ops": c[2][:4], "impl_result": out[:2]})
+            chk.sample({"case": c[:-1], "ops": c[-1][:4], "impl_result": out[:2]})
     chk.coverage["input_distribution"] = dict(dist, corpus=len(corpus), ops=opcount)
 
     def tagger(c, a, m):
         # first diverging step
         for j, (x, y) in enumerate(zip(a, m if isinstance(m, list) else [])):
             if x != y:
-                return {"op": OPNAMES.get(c[2][j][0], "?"), "step": j}
+                return {"op": OPNAMES.get(c[-1][j][0], "?"), "step": j, "state": "stored" if len(c) == 4 else "text"}
         return {"op": "?"}
 
     model_results, nbad = correspondence(
         chk, "c01", cases, impl_results, tagger,
-        describe=lambda c, a, m: "text=%r cursor=%d ops=%r impl=%r model=%r" % (unS(c[0]), c[1], c[2][:3], a[:3], m[:3] if isinstance(m, list) else m),
+        describe=lambda c, a, m: "case=%r ops=%r impl=%r model=%r" % (c[:-1], c[-1][:3], a[:3], m[:3] if isinstance(m, list) else m),
         oracle_failed=lambda i: i in oracle_bad)
 
     # extraction/driver cross-check inside Coq on a sample
     k = 1200 if chk.tier == "thorough" else 300
     idx = sorted(chk.rng.sample(range(len(cases)), min(k, len(cases))))
     pairs = [(cases[i], impl_results[i]) for i in idx]
-    bad, logs = vm_crosscheck(PROP, "run_C01x", "Model.BufferEdit Model.C01_CaseWord", pairs)
+    bad, logs = vm_crosscheck(PROP, "run_C01all", "Model.BufferEdit Model.C01_CaseWord Model.C01_Views", pairs)
     chk.coverage["vm_compute_crosschecked"] = len(pairs)
     model_bad = set(i for i, (a, m) in enumerate(zip(impl_results, model_results)) if sx_norm(a) != m)
     vm_bad = set(idx[b] for b in bad if isinstance(b, int))
@@ -486,7 +712,7 @@ def replay(data):
         case = rep["case"]
     else:
         case = [S(rep["text"]), rep["cursor"], [rep["op"]]]
-    out, trace = impl_case(case)
+    out, trace = impl_wcase(case) if len(case) == 4 else impl_case(case)
     rc = 0
     for tr in trace:
         bad = oracle_step(*tr)
